@@ -16,7 +16,7 @@ func init() {
 			return 2
 		}
 		return r.Finish(ev.Coverage{States: 4, Transitions: evals, Traces: evals, Evaluations: evals, Distinct: nontriv, Exhaustive: true,
-			Rule: "every ICS-20 packet of the alphabet (registered / unregistered foreign coin / returning native coin / the registered coin arriving over two hops, whose voucher is a different unregistered one while the receiver already holds direct vouchers; x amount {1,3,0,non-numeric,>2^256,-1,empty} x receiver {valid, malformed, blocked module account, zero address}) and every pair of packets in sequence, in four registry states {no pair, pair enabled, pair disabled, module disabled}, is given to the real IBCMiddleware.OnRecvPacket obtained from the application's IBC router and, on a sibling branch of the same state, to the wrapped transfer module alone; oracle: identical acknowledgement (success flag and bytes; a nil return means nothing is committed under the IBC core rule), and the receiver ends with either exactly the amount as tokens with the vouchers escrowed, or exactly the vouchers and nothing else. states = registry states, transitions = packets delivered",
+			Rule: "every ICS-20 packet of the alphabet (registered / unregistered foreign coin / returning native coin / the registered coin arriving over two hops, whose voucher is a different unregistered one while the receiver already holds direct vouchers; x amount {1,3,0,non-numeric,>2^256,-1,empty} x receiver {valid, malformed, blocked module account, zero address}) and every pair of packets in sequence, in five registry states {no pair, pair enabled, voucher added as the second denomination of a pair whose first denomination the receiver also holds, pair disabled, module disabled}, is given to the real IBCMiddleware.OnRecvPacket obtained from the application's IBC router and, on a sibling branch of the same state, to the wrapped transfer module alone; oracle: identical acknowledgement (success flag and bytes; a nil return means nothing is committed under the IBC core rule), and the receiver ends with either exactly the amount as tokens with the vouchers escrowed, or exactly the vouchers and nothing else. states = registry states, transitions = packets delivered",
 			Bounds: map[string]interface{}{"tier": tier},
 			Assumptions: []string{"ibc-go core and the transfer application are trusted; the IBC core rule 'a nil acknowledgement is not written' is taken from ibc-go v3", "the packet is handed to the callback directly (no channel handshake), as the core does after its own checks"}})
 	}}
